@@ -1,6 +1,7 @@
 package rules
 
 import (
+	"go/token"
 	"go/types"
 	"sort"
 	"strings"
@@ -63,6 +64,13 @@ var errExceptions = []errFlowException{
 	{"sync.(*Syncer).networkHead", "syncHead[H]).Head#1", "by design (C19.b failed-request-keeps-head): when the request for a more recent head fails, the current subjective head is returned with a nil error"},
 	{"sync.(*Syncer).networkHead", "incomingNetworkHead", "by design (C19.b): a refused soft-failing head leaves the subjective head unchanged, returned with a nil error"},
 	{"sync.(*Syncer).subjectiveHead", "localHead#1", "the `expired` case is tested first; localHead returns the zero header with every error and a zero header is never expired (C19.d zero-not-expired), so a failed read cannot take that branch"},
+}
+
+// useExceptions: sites that use the value of a call whose error may be non-nil, by design.
+var useExceptions = []errFlowException{
+	{"p2p.(*session).doRequest", "sendMessage", "by design (C18.b partial-still-delivered): the responses received before a stream failure are still processed"},
+	{"sync.(*Syncer).networkHead", "syncHead[H]).Head", "by design (C15): a head that only failed verification softly is handed to the bifurcation"},
+	{"sync.(*Syncer).subjectiveHead", "localHead", "the expiry of the (possibly zero) local head is tested before its error: a zero header is never expired (C19.d zero-not-expired)"},
 }
 
 func runErrTable(prop string, c *an.Ctx) {
@@ -128,6 +136,15 @@ func checkErrorDiscipline(c *an.Ctx, id string, exceptions []errFlowException, f
 					}
 				}
 			}
+			// … or the error is assigned to a named variable that is simply never read (the guard behind
+			// the call was dropped): only `_` is a deliberate discard
+			if !used && fn.Pkg != nil && len(c.P.AssignTargets(call)) > 0 {
+				k := idx
+				if k < 0 {
+					k = 0
+				}
+				used = c.P.NamedTarget(call, k)
+			}
 			if !used {
 				return
 			}
@@ -179,6 +196,18 @@ func checkErrorDiscipline(c *an.Ctx, id string, exceptions []errFlowException, f
 			// is known to be non-nil on the path that carries it (the `err = f(); … if err != nil` idiom
 			// with an intermediate re-assignment on another branch)
 			var bad *ssa.Return
+			var badUse ssa.Instruction
+			vals := map[ssa.Value]bool{} // the other results of the failed call, and what carries them on the failing path
+			valAllocs := map[*ssa.Alloc]bool{}
+			if idx >= 0 && call.Referrers() != nil {
+				for _, ref := range *call.Referrers() {
+					if ex, isEx := ref.(*ssa.Extract); isEx && ex.Index != idx {
+						if _, isBasic := ex.Type().Underlying().(*types.Basic); !isBasic {
+							vals[ex] = true
+						}
+					}
+				}
+			}
 			seen := map[string]bool{}
 			// nils: error-typed phis known to be nil on the current path (their operand on the
 			// edge taken is the nil constant): `rerr` accumulators that were not assigned
@@ -239,6 +268,69 @@ func checkErrorDiscipline(c *an.Ctx, id string, exceptions []errFlowException, f
 					}
 					seen[k] = true
 				}
+				// uses of the failed call's other results on this (failing, unclassified) path
+				started := from != nil
+				for _, ins := range b.Instrs {
+					if !started {
+						started = ins == ssa.Instruction(call)
+						continue
+					}
+					if ph, isPhi := ins.(*ssa.Phi); isPhi {
+						if from != nil {
+							for i, p := range b.Preds {
+								if p == from && vals[ph.Edges[i]] {
+									vals[ph] = true
+								}
+							}
+						}
+						continue
+					}
+					if ld, isLd := ins.(*ssa.UnOp); isLd && ld.Op == token.MUL {
+						if al, isAl := ld.X.(*ssa.Alloc); isAl && valAllocs[al] {
+							vals[ld] = true
+							continue
+						}
+					}
+					uses := false
+					for _, op := range ins.Operands(nil) {
+						if op != nil && *op != nil && vals[*op] {
+							uses = true
+						}
+					}
+					if !uses {
+						continue
+					}
+					switch x := ins.(type) {
+					case *ssa.DebugRef, *ssa.Extract:
+					case *ssa.Store:
+						// kept in a local (followed) or put into a structure (not followed: what becomes of the
+						// structure on the failing path is the business of the returns)
+						if al, isAl := x.Addr.(*ssa.Alloc); isAl && vals[x.Val] {
+							valAllocs[al] = true
+						}
+					case *ssa.Return:
+						ev := x.Results[len(x.Results)-1]
+						if !(carried[ev] || ev == errVal || (t.ErrShape(ev) != "nil" && !nils[ev])) && badUse == nil {
+							badUse = ins
+						}
+					case *ssa.Call:
+						if x.Call.IsInvoke() && x.Call.Method.Name() == "IsZero" && vals[x.Call.Value] {
+							continue // asking whether the value is there is not using it
+						}
+						if strings.HasSuffix(an.StaticFullName(&x.Call), "SugaredLogger).Debugw") || strings.Contains(an.StaticFullName(&x.Call), "zap.SugaredLogger") {
+							continue // logging
+						}
+						if badUse == nil {
+							badUse = ins
+						}
+					case *ssa.MakeInterface, *ssa.ChangeInterface, *ssa.ChangeType, *ssa.Convert, *ssa.Slice:
+						vals[x.(ssa.Value)] = true
+					default:
+						if badUse == nil {
+							badUse = ins
+						}
+					}
+				}
 				last := b.Instrs[len(b.Instrs)-1]
 				if r, isRet := last.(*ssa.Return); isRet {
 					ev := r.Results[len(r.Results)-1]
@@ -274,6 +366,24 @@ func checkErrorDiscipline(c *an.Ctx, id string, exceptions []errFlowException, f
 				c.Fail(id, key, "a failed step is never reported as success: no nil-error return is reachable after the call once its error is non-nil (unless the error was classified by errors.Is/As)", fn, bad, "nil return reachable after failed "+an.Stable(errTerm), pr.AtRefined(bad.Block()))
 			} else {
 				c.Ok(id, key, "a failed step is never reported as success: no nil-error return is reachable after the call once its error is non-nil (unless the error was classified by errors.Is/As)", fn, call, "", nil)
+			}
+			if len(vals) > 0 {
+				ukey := "result-use:" + an.FuncName(fn) + ":" + an.Stable(t.Of(call))
+				urule := "the value returned by a failed call is not used: on every path on which the call's error is non-nil and unclassified its other results are only handed back together with an error"
+				excepted := false
+				for _, ex := range useExceptions {
+					if ex.Func == an.FuncName(fn) && strings.Contains(an.Stable(t.Of(call)), ex.Callee) {
+						c.Ok(id, ukey, urule+" (named exception: "+ex.Reason+")", fn, call, "exception", nil)
+						excepted = true
+					}
+				}
+				if !excepted {
+					if badUse != nil {
+						c.Fail(id, ukey, urule, fn, badUse, "used by `"+badUse.String()+"` at "+c.P.InstrPos(badUse)+" although "+an.Stable(errTerm)+" may be non-nil", pr.AtRefined(badUse.Block()))
+					} else {
+						c.Ok(id, ukey, urule, fn, call, "", nil)
+					}
+				}
 			}
 		})
 	}
